@@ -6,25 +6,38 @@ namespace Drv.C15
 
 def presentedOf (l : Line) : _root_.C15.Presented :=
   { subjectType := str l "s.type", subjectLive := bool l "s.live", subjectSubject := str l "s.sub",
-    actorGiven := str l "a.kind" != "none", actorType := str l "a.type", actorLive := bool l "a.live",
-    requestedType := str l "req.type", scopes := list l "scopes", storageVeto := bool l "veto" }
+    actorGiven := str l "a.kind" != "none", actorType := str l "a.type", actorLive := bool l "a.live", actorSubject := str l "a.sub",
+    requestedType := str l "req.type", scopes := list l "scopes", audience := list l "aud", storageVeto := bool l "veto" }
 
 def issuedOf (l : Line) : Option _root_.C15.Issued :=
   if str l "obs" == "ok" then
     some { issuedTokenType := str l "o.issued", accessToken := str l "o.at", accessLive := bool l "o.atlive",
-           refreshToken := bool l "o.rt", refreshLive := bool l "o.rtlive", subject := str l "o.sub", scopes := list l "o.scopes" }
+           refreshToken := bool l "o.rt", refreshLive := bool l "o.rtlive", subject := str l "o.sub", scopes := list l "o.scopes",
+           audience := list l "o.aud", policyAsked := bool l "o.seen", exchangeSubject := str l "o.xsub", actor := str l "o.actor" }
   else none
 
 def monitorLine (l : Line) : Option String :=
   if str l "obs" == "panic" then some "panic" else
   let cfg := Drv.C05.cfgOf l
-  let cred : _root_.C04.Presented := { clientID := str l "cid", secret := str l "secret" }
-  _root_.C15.judge cfg (int l "now0") cred (presentedOf l) (issuedOf l)
+  let cred : _root_.C04.Presented :=
+    { clientID := str l "cid", secret := str l "secret", assertion := if str l "auth" == "assertion" then some (parseToken l) else none }
+  -- a client assertion is judged at both ends of the call (its validity could flip in between)
+  let v0 := _root_.C15.judge cfg (int l "now0") cred (presentedOf l) (issuedOf l)
+  let v1 := _root_.C15.judge cfg (int l "now1") cred (presentedOf l) (issuedOf l)
+  if v0.isSome && v1.isSome then v0 else none
+
+def short (s : String) : String := if s == "" then "-" else s.replace "urn:ietf:params:oauth:token-type:" ""
 
 def cls (l : Line) : String :=
-  s!"{str l "s.kind"}:{(str l "s.type").replace "urn:ietf:params:oauth:token-type:" ""}:{(str l "req.type").replace "urn:ietf:params:oauth:token-type:" ""}:{str l "a.kind"}:{if str l "obs" == "ok" then "ok" else str l "o.err"}"
+  s!"{str l "s.kind"}:{short (str l "s.type")}:{short (str l "req.type")}:{str l "a.kind"}:{if str l "obs" == "ok" then "ok" else str l "o.err"}"
+
+/-- what was observed: outcome, and for a success the declared type, whose tokens they are, on whose behalf, refresh token or not -/
+def showObs (l : Line) : String :=
+  if str l "obs" == "ok" then
+    s!"ok:{short (str l "o.issued")}:sub={str l "o.sub"}:act={str l "o.actor"}:rt={if bool l "o.rt" then 1 else 0}"
+  else if str l "obs" == "panic" then "panic" else "err:" ++ str l "o.err"
 
 def stepMon (l : Line) : String :=
-  s!"case={str l "case"} class={cls l} model=- observed={if str l "obs" == "ok" then "ok" else "err:" ++ str l "o.err"} monitor={showMon (monitorLine l)} agree=1"
+  s!"case={str l "case"} class={cls l} model=- observed={showObs l} monitor={showMon (monitorLine l)} agree=1"
 
 end Drv.C15
